@@ -65,6 +65,19 @@ func init() {
 		},
 	})
 	core.Register(&core.Property{
+		ID:         "C07",
+		Decided:    "Decides that every fixed-width Go store through a decoder's destination pointer is no wider than the smallest kind that decoder is constructed for (or sits under a shape guard), that elements at a run-time stride are written size-aware, that moved values are allocated as the type they are moved as and strides come from the element type's size, that the integer/float store widths equal their kinds (C16.R4), and that the caller's input only feeds the private copy (C12.R1); it does not decide that every store lands inside the right object.",
+		NotCovered: "that a correctly typed store lands inside the right object for every layout, GC visibility of intermediate uintptr values, reads beyond the private copy (see C06.R5 for look-ahead reads).",
+		Rules: []*core.Rule{
+			{ID: "C07.R1", Title: "for each decoder type D, the kinds D is constructed for are derived from compile's kind switch; every `*(*T)(…p…) = v` store in D's methods has sizeof(T) <= the smallest of those kinds, or is under an isPtrType/Kind() guard", Covers: "null and scalar stores never spill into neighbouring fields or leave a malformed header", Min: 12, Run: c07r1},
+			{ID: "C07.R2", Title: "no fixed-width Go store at an address computed by multiplying with a run-time size field; such elements are written with typedmemmove", Covers: "bytes after a short array keep their contents", Min: 4, Run: c07r2},
+			{ID: "C07.R3", Title: "typedmemmove(T, dst, src): src allocated with unsafe_New(T) of the same T; slice/array decoders take their stride from elemType.Size() of the element type they store", Covers: "moves copy exactly one value of the right type", Min: 8, Run: c07r3},
+			{ID: "C16.R4", Title: "numeric store widths equal their kinds (shared with C16)", Covers: "integer and float destinations are written at their own width", Min: 60, Run: c16r4},
+			{ID: "C12.R1", Title: "the caller's input only feeds the private copy (shared with C12)", Covers: "decoding reads only its private copy of the input", Min: 12, Run: c12r1},
+			{ID: "C06.R5", Title: "look-ahead reads stay inside the buffer (shared with C06)", Covers: "no stray reads past the private copy", Min: 25, Run: c06r5},
+		},
+	})
+	core.Register(&core.Property{
 		ID:         "C08",
 		Decided:    "Decides that every published opcode program was post-processed for interface frames, that the slot fields the interpreters address are the ones the frame size is computed from, that frame trailers and the +3 sizing constants agree, that the frame base is recomputed after the slot array may have moved, that cycle bookkeeping pushes and pops in pairs, that objects whose address is held only as uintptr are kept alive, that type-driven compile recursion is bounded, and that compiled programs are not written at run time; it does not decide memory safety of every execution.",
 		NotCovered: "that TotalLength is sufficient for every program shape, correctness of ptrToPtr chains, the contents of recycled Ptrs slots, what user callbacks do.",
